@@ -58,3 +58,437 @@ Theorem const_redefinition_rejected :
     exists e, parse_const fuel consts ts = Err e /\ els e = tline (cur ts1) /\ ecs e = tsb (cur ts1).
 Proof. exact C13Proofs.const_redefinition_rejected. Qed.
 Print Assumptions const_redefinition_rejected.
+
+(* ---------- name clashes (NameClash.v) ---------- *)
+(* Parser: a program is accepted exactly when the names of all texts (user statements and hoisted) and of all movements are
+   pairwise distinct; otherwise the answer is "duplicate text label" located at the LATER text of the first repeated pair, or
+   "duplicate movement label" at the EARLIER movement statement - always a `text` / `movement` statement the author wrote
+   (duplicate_*_reports_statement).  Emitter: a script is rejected exactly when one of its labels (at any depth) equals a
+   generated chunk label of that script or the name of a text, and the error carries the token of such a label
+   (emit_script_rejects_iff, emit_script_error_token); through compile: every position field of that token
+   (compile_label_error_located).  What the compiler does NOT detect (two scripts of one name, a label equal to another script's
+   generated label, the same label twice in one script) is shown by the `not_detected_*` examples of NameClash.v. *)
+From Pory Require Import Format WorkLabels NameClash.
+Theorem dup_text_reports_later :
+  forall (l : list textdef) (x : textdef),
+  dup_text [] l = Some x <-> (exists l1 l2 : list textdef, l = l1 ++ x :: l2 /\ NoDup (map xname l1) /\ In (xname x) (map xname l1)).
+Proof. exact NameClash.dup_text_reports_later. Qed.
+Print Assumptions dup_text_reports_later.
+
+Theorem dup_text_none_nodup :
+  forall l : list textdef, dup_text [] l = None <-> NoDup (map xname l).
+Proof. exact NameClash.dup_text_none_nodup. Qed.
+Print Assumptions dup_text_none_nodup.
+
+Theorem dup_mov_reports_earlier :
+  forall (l : list top) (tk0 : token),
+  dup_mov [] l = Some tk0 <->
+  (exists (e1 : list (text * token)) (n : text) (tk : token) (e2 : list (text * token)),
+     mov_entries l = e1 ++ (n, tk) :: e2 /\ NoDup (map Datatypes.fst e1) /\ In (n, tk0) e1).
+Proof. exact NameClash.dup_mov_reports_earlier. Qed.
+Print Assumptions dup_mov_reports_earlier.
+
+Theorem dup_mov_none_nodup :
+  forall l : list top, dup_mov [] l = None <-> NoDup (mov_names l).
+Proof. exact NameClash.dup_mov_none_nodup. Qed.
+Print Assumptions dup_mov_none_nodup.
+
+Theorem accepted_names_distinct :
+  forall (autovars : list (text * autovar)) (switches : list (text * text)) (ee : bool) (pf : toks -> Parser.res (token * text * text * toks))
+    (ts : toks) (p : program),
+  parse_program autovars switches ee pf ts = Parser.Ok p -> NoDup (map xname (texts p)) /\ NoDup (mov_names (tops p)).
+Proof. exact NameClash.accepted_names_distinct. Qed.
+Print Assumptions accepted_names_distinct.
+
+Theorem parse_program_name_check :
+  forall (autovars : list (text * autovar)) (switches : list (text * text)) (ee : bool) (pf : toks -> Parser.res (token * text * text * toks))
+    (ts : list token) (st : pstate),
+  parse_tops autovars switches ee pf (5 * length ts + 4) pst0 ts = Parser.Ok st ->
+  (exists (l1 : list textdef) (x : textdef) (l2 : list textdef),
+     all_texts st = l1 ++ x :: l2 /\
+     NoDup (map xname l1) /\
+     In (xname x) (map xname l1) /\
+     parse_program autovars switches ee pf ts =
+     err_tok (xtok x)
+       (String.String (Ascii.Ascii false false true false false true true false)
+          (String.String (Ascii.Ascii true false true false true true true false)
+             (String.String (Ascii.Ascii false false false false true true true false)
+                (String.String (Ascii.Ascii false false true true false true true false)
+                   (String.String (Ascii.Ascii true false false true false true true false)
+                      (String.String (Ascii.Ascii true true false false false true true false)
+                         (String.String (Ascii.Ascii true false false false false true true false)
+                            (String.String (Ascii.Ascii false false true false true true true false)
+                               (String.String (Ascii.Ascii true false true false false true true false)
+                                  (String.String (Ascii.Ascii false false false false false true false false)
+                                     (String.String (Ascii.Ascii false false true false true true true false)
+                                        (String.String (Ascii.Ascii true false true false false true true false)
+                                           (String.String (Ascii.Ascii false false false true true true true false)
+                                              (String.String (Ascii.Ascii false false true false true true true false)
+                                                 (String.String (Ascii.Ascii false false false false false true false false)
+                                                    (String.String (Ascii.Ascii false false true true false true true false)
+                                                       (String.String (Ascii.Ascii true false false false false true true false)
+                                                          (String.String (Ascii.Ascii false true false false false true true false)
+                                                             (String.String (Ascii.Ascii true false true false false true true false)
+                                                                (String.String (Ascii.Ascii false false true true false true true false)
+                                                                   String.EmptyString))))))))))))))))))))) \/
+  NoDup (map xname (all_texts st)) /\
+  (exists (e1 : list (text * token)) (n : text) (tk : token) (e2 : list (text * token)) (tk0 : token),
+     mov_entries (all_tops st) = e1 ++ (n, tk) :: e2 /\
+     NoDup (map Datatypes.fst e1) /\
+     In (n, tk0) e1 /\
+     parse_program autovars switches ee pf ts =
+     err_tok tk0
+       (String.String (Ascii.Ascii false false true false false true true false)
+          (String.String (Ascii.Ascii true false true false true true true false)
+             (String.String (Ascii.Ascii false false false false true true true false)
+                (String.String (Ascii.Ascii false false true true false true true false)
+                   (String.String (Ascii.Ascii true false false true false true true false)
+                      (String.String (Ascii.Ascii true true false false false true true false)
+                         (String.String (Ascii.Ascii true false false false false true true false)
+                            (String.String (Ascii.Ascii false false true false true true true false)
+                               (String.String (Ascii.Ascii true false true false false true true false)
+                                  (String.String (Ascii.Ascii false false false false false true false false)
+                                     (String.String (Ascii.Ascii true false true true false true true false)
+                                        (String.String (Ascii.Ascii true true true true false true true false)
+                                           (String.String (Ascii.Ascii false true true false true true true false)
+                                              (String.String (Ascii.Ascii true false true false false true true false)
+                                                 (String.String (Ascii.Ascii true false true true false true true false)
+                                                    (String.String (Ascii.Ascii true false true false false true true false)
+                                                       (String.String (Ascii.Ascii false true true true false true true false)
+                                                          (String.String (Ascii.Ascii false false true false true true true false)
+                                                             (String.String (Ascii.Ascii false false false false false true false false)
+                                                                (String.String (Ascii.Ascii false false true true false true true false)
+                                                                   (String.String (Ascii.Ascii true false false false false true true false)
+                                                                      (String.String (Ascii.Ascii false true false false false true true false)
+                                                                         (String.String
+                                                                            (Ascii.Ascii true false true false false true true false)
+                                                                            (String.String
+                                                                               (Ascii.Ascii false false true true false true true false)
+                                                                               String.EmptyString))))))))))))))))))))))))) \/
+  NoDup (map xname (all_texts st)) /\
+  NoDup (mov_names (all_tops st)) /\ parse_program autovars switches ee pf ts = Parser.Ok {| tops := all_tops st; texts := all_texts st |}.
+Proof. exact NameClash.parse_program_name_check. Qed.
+Print Assumptions parse_program_name_check.
+
+Theorem duplicate_text_label_iff :
+  forall (autovars : list (text * autovar)) (switches : list (text * text)) (ee : bool) (pf : toks -> Parser.res (token * text * text * toks))
+    (ts : list token) (st : pstate),
+  parse_tops autovars switches ee pf (5 * length ts + 4) pst0 ts = Parser.Ok st ->
+  ~ NoDup (map xname (all_texts st)) <->
+  (exists x : textdef,
+     In x (all_texts st) /\
+     parse_program autovars switches ee pf ts =
+     err_tok (xtok x)
+       (String.String (Ascii.Ascii false false true false false true true false)
+          (String.String (Ascii.Ascii true false true false true true true false)
+             (String.String (Ascii.Ascii false false false false true true true false)
+                (String.String (Ascii.Ascii false false true true false true true false)
+                   (String.String (Ascii.Ascii true false false true false true true false)
+                      (String.String (Ascii.Ascii true true false false false true true false)
+                         (String.String (Ascii.Ascii true false false false false true true false)
+                            (String.String (Ascii.Ascii false false true false true true true false)
+                               (String.String (Ascii.Ascii true false true false false true true false)
+                                  (String.String (Ascii.Ascii false false false false false true false false)
+                                     (String.String (Ascii.Ascii false false true false true true true false)
+                                        (String.String (Ascii.Ascii true false true false false true true false)
+                                           (String.String (Ascii.Ascii false false false true true true true false)
+                                              (String.String (Ascii.Ascii false false true false true true true false)
+                                                 (String.String (Ascii.Ascii false false false false false true false false)
+                                                    (String.String (Ascii.Ascii false false true true false true true false)
+                                                       (String.String (Ascii.Ascii true false false false false true true false)
+                                                          (String.String (Ascii.Ascii false true false false false true true false)
+                                                             (String.String (Ascii.Ascii true false true false false true true false)
+                                                                (String.String (Ascii.Ascii false false true true false true true false)
+                                                                   String.EmptyString))))))))))))))))))))).
+Proof. exact NameClash.duplicate_text_label_iff. Qed.
+Print Assumptions duplicate_text_label_iff.
+
+Theorem duplicate_movement_label_iff :
+  forall (autovars : list (text * autovar)) (switches : list (text * text)) (ee : bool) (pf : toks -> Parser.res (token * text * text * toks))
+    (ts : list token) (st : pstate),
+  parse_tops autovars switches ee pf (5 * length ts + 4) pst0 ts = Parser.Ok st ->
+  NoDup (map xname (all_texts st)) /\ ~ NoDup (mov_names (all_tops st)) <->
+  (exists (n : text) (tk0 : token),
+     In (n, tk0) (mov_entries (all_tops st)) /\
+     parse_program autovars switches ee pf ts =
+     err_tok tk0
+       (String.String (Ascii.Ascii false false true false false true true false)
+          (String.String (Ascii.Ascii true false true false true true true false)
+             (String.String (Ascii.Ascii false false false false true true true false)
+                (String.String (Ascii.Ascii false false true true false true true false)
+                   (String.String (Ascii.Ascii true false false true false true true false)
+                      (String.String (Ascii.Ascii true true false false false true true false)
+                         (String.String (Ascii.Ascii true false false false false true true false)
+                            (String.String (Ascii.Ascii false false true false true true true false)
+                               (String.String (Ascii.Ascii true false true false false true true false)
+                                  (String.String (Ascii.Ascii false false false false false true false false)
+                                     (String.String (Ascii.Ascii true false true true false true true false)
+                                        (String.String (Ascii.Ascii true true true true false true true false)
+                                           (String.String (Ascii.Ascii false true true false true true true false)
+                                              (String.String (Ascii.Ascii true false true false false true true false)
+                                                 (String.String (Ascii.Ascii true false true true false true true false)
+                                                    (String.String (Ascii.Ascii true false true false false true true false)
+                                                       (String.String (Ascii.Ascii false true true true false true true false)
+                                                          (String.String (Ascii.Ascii false false true false true true true false)
+                                                             (String.String (Ascii.Ascii false false false false false true false false)
+                                                                (String.String (Ascii.Ascii false false true true false true true false)
+                                                                   (String.String (Ascii.Ascii true false false false false true true false)
+                                                                      (String.String (Ascii.Ascii false true false false false true true false)
+                                                                         (String.String
+                                                                            (Ascii.Ascii true false true false false true true false)
+                                                                            (String.String
+                                                                               (Ascii.Ascii false false true true false true true false)
+                                                                               String.EmptyString))))))))))))))))))))))))).
+Proof. exact NameClash.duplicate_movement_label_iff. Qed.
+Print Assumptions duplicate_movement_label_iff.
+
+Theorem accepted_iff :
+  forall (autovars : list (text * autovar)) (switches : list (text * text)) (ee : bool) (pf : toks -> Parser.res (token * text * text * toks))
+    (ts : list token) (st : pstate),
+  parse_tops autovars switches ee pf (5 * length ts + 4) pst0 ts = Parser.Ok st ->
+  NoDup (map xname (all_texts st)) /\ NoDup (mov_names (all_tops st)) <->
+  parse_program autovars switches ee pf ts = Parser.Ok {| tops := all_tops st; texts := all_texts st |}.
+Proof. exact NameClash.accepted_iff. Qed.
+Print Assumptions accepted_iff.
+
+Theorem duplicate_text_reports_statement :
+  forall (autovars : list (text * autovar)) (switches : list (text * text)) (ee : bool) (pf : toks -> Parser.res (token * text * text * toks))
+    (f : nat) (ts : toks) (st : pstate) (x : textdef),
+  parse_tops autovars switches ee pf f pst0 ts = Parser.Ok st ->
+  (N.of_nat (length (htexts (ph st))) <= 10 ^ 40)%N ->
+  (N.of_nat (length (hmovs (ph st))) <= 10 ^ 40)%N ->
+  dup_text [] (all_texts st) = Some x ->
+  exists p1 p2 : list textdef,
+    ptexts st = p1 ++ x :: p2 /\
+    ttype (xtok x) = TEXT /\ NoDup (map xname (htexts (ph st) ++ p1)) /\ In (xname x) (map xname (htexts (ph st) ++ p1)).
+Proof. exact NameClash.duplicate_text_reports_statement. Qed.
+Print Assumptions duplicate_text_reports_statement.
+
+Theorem duplicate_movement_reports_statement :
+  forall (autovars : list (text * autovar)) (switches : list (text * text)) (ee : bool) (pf : toks -> Parser.res (token * text * text * toks))
+    (f : nat) (ts : toks) (st : pstate) (tk0 : token),
+  parse_tops autovars switches ee pf f pst0 ts = Parser.Ok st ->
+  (N.of_nat (length (htexts (ph st))) <= 10 ^ 40)%N ->
+  (N.of_nat (length (hmovs (ph st))) <= 10 ^ 40)%N ->
+  dup_mov [] (all_tops st) = Some tk0 ->
+  exists n : text,
+    In (n, tk0) (mov_entries (ptops st)) /\
+    ttype tk0 = MOVEMENT /\
+    (exists (e1 : list (text * token)) (tk : token) (e2 : list (text * token)),
+       mov_entries (all_tops st) = e1 ++ (n, tk) :: e2 /\ In (n, tk0) e1 /\ NoDup (map Datatypes.fst e1)).
+Proof. exact NameClash.duplicate_movement_reports_statement. Qed.
+Print Assumptions duplicate_movement_reports_statement.
+
+Theorem render_chunks_cases :
+  forall (mp : option text) (tl : list text) (name : text) (glob : bool) (G : list chunk) (order : list Z),
+  let gen := map (chunk_label name) G in
+  (exists code : list instr, render_chunks mp tl name glob G order = Ok code) /\ Forall (chunk_ok tl gen) (LabelsUnique.rchunks G order) \/
+  (exists (o1 : list Z) (i : Z) (o2 : list Z) (c : chunk) (tk : token) (b : bool),
+     order = o1 ++ i :: o2 /\
+     get_chunk G i = Some c /\
+     Forall (chunk_ok tl gen) (LabelsUnique.rchunks G o1) /\
+     clash tl gen (cstmts c) = Some (tk, b) /\ render_chunks mp tl name glob G order = ErrLabel tk b).
+Proof. exact NameClash.render_chunks_cases. Qed.
+Print Assumptions render_chunks_cases.
+
+Theorem generated_labels_spec :
+  forall (name : text) (body : list stmt) (w : wst),
+  emit_graph body = Ok w ->
+  Worklist.src_ok body ->
+  forall n : text,
+  In n (map (chunk_label name) (finals w)) <-> n = name \/ (exists k : Z, (0 < k < Z.of_nat (length (finals w)))%Z /\ n = lbl name k).
+Proof. exact NameClash.generated_labels_spec. Qed.
+Print Assumptions generated_labels_spec.
+
+Theorem emit_script_label_check :
+  forall (mp : option text) (tl : list text) (name : text) (glob optimize : bool) (body : list stmt) (w : wst),
+  emit_graph body = Ok w ->
+  Worklist.src_ok body ->
+  (exists code : list instr, emit_script mp tl name glob optimize body = Ok code) /\
+  (forall n : text, In n (dlabs body) -> ~ In n (map (chunk_label name) (finals w)) /\ ~ In n tl) \/
+  (exists (n : text) (tk : token) (b : bool),
+     emit_script mp tl name glob optimize body = ErrLabel tk b /\
+     In (n, tk) (dlts body) /\
+     (b = false /\ In n (map (chunk_label name) (finals w)) \/ b = true /\ ~ In n (map (chunk_label name) (finals w)) /\ In n tl)).
+Proof. exact NameClash.emit_script_label_check. Qed.
+Print Assumptions emit_script_label_check.
+
+Theorem emit_script_accepts_iff :
+  forall (mp : option text) (tl : list text) (name : text) (glob optimize : bool) (body : list stmt) (w : wst),
+  emit_graph body = Ok w ->
+  Worklist.src_ok body ->
+  (exists code : list instr, emit_script mp tl name glob optimize body = Ok code) <->
+  (forall n : text, In n (dlabs body) -> ~ In n (map (chunk_label name) (finals w)) /\ ~ In n tl).
+Proof. exact NameClash.emit_script_accepts_iff. Qed.
+Print Assumptions emit_script_accepts_iff.
+
+Theorem emit_script_rejects_iff :
+  forall (mp : option text) (tl : list text) (name : text) (glob optimize : bool) (body : list stmt) (w : wst),
+  emit_graph body = Ok w ->
+  Worklist.src_ok body ->
+  (exists (tk : token) (b : bool), emit_script mp tl name glob optimize body = ErrLabel tk b) <->
+  (exists n : text, In n (dlabs body) /\ (In n (map (chunk_label name) (finals w)) \/ In n tl)).
+Proof. exact NameClash.emit_script_rejects_iff. Qed.
+Print Assumptions emit_script_rejects_iff.
+
+Theorem emit_script_error_token :
+  forall (mp : option text) (tl : list text) (name : text) (glob optimize : bool) (body : list stmt) (w : wst),
+  emit_graph body = Ok w ->
+  Worklist.src_ok body ->
+  forall (tk : token) (b : bool),
+  emit_script mp tl name glob optimize body = ErrLabel tk b ->
+  exists n : text,
+    In (n, tk) (dlts body) /\
+    (b = false /\ In n (map (chunk_label name) (finals w)) \/ b = true /\ ~ In n (map (chunk_label name) (finals w)) /\ In n tl).
+Proof. exact NameClash.emit_script_error_token. Qed.
+Print Assumptions emit_script_error_token.
+
+Theorem emit_program_accepts_iff :
+  forall (optimize : bool) (mp : option text) (p : program),
+  Forall Worklist.src_ok (bodies_of (tops p)) ->
+  (exists out : text, emit_program optimize mp p = Ok out) <-> Forall (script_clean (map xname (texts p))) (scripts_of (tops p)).
+Proof. exact NameClash.emit_program_accepts_iff. Qed.
+Print Assumptions emit_program_accepts_iff.
+
+Theorem emit_program_label_error :
+  forall (optimize : bool) (mp : option text) (p : program) (tk : token) (b : bool),
+  Forall Worklist.src_ok (bodies_of (tops p)) ->
+  emit_program optimize mp p = ErrLabel tk b ->
+  exists (s1 : list script) (s : script) (s2 : list script) (w : wst) (lab : text),
+    scripts_of (tops p) = s1 ++ s :: s2 /\
+    Forall (script_clean (map xname (texts p))) s1 /\
+    emit_graph (snd s) = Ok w /\
+    In (lab, tk) (dlts (snd s)) /\
+    (let gen := map (chunk_label (Datatypes.fst (Datatypes.fst s))) (finals w) in
+     b = false /\ In lab gen \/ b = true /\ ~ In lab gen /\ In lab (map xname (texts p))).
+Proof. exact NameClash.emit_program_label_error. Qed.
+Print Assumptions emit_program_label_error.
+
+Theorem emit_program_rejects_iff :
+  forall (optimize : bool) (mp : option text) (p : program),
+  Forall Worklist.src_ok (bodies_of (tops p)) ->
+  (forall s : script, In s (scripts_of (tops p)) -> exists w : wst, emit_graph (snd s) = Ok w) ->
+  (exists (tk : token) (b : bool), emit_program optimize mp p = ErrLabel tk b) <->
+  (exists (s : script) (w : wst) (lab : text),
+     In s (scripts_of (tops p)) /\
+     emit_graph (snd s) = Ok w /\
+     In lab (dlabs (snd s)) /\ (In lab (map (chunk_label (Datatypes.fst (Datatypes.fst s))) (finals w)) \/ In lab (map xname (texts p)))).
+Proof. exact NameClash.emit_program_rejects_iff. Qed.
+Print Assumptions emit_program_rejects_iff.
+
+Theorem compiled_without_name_clash :
+  forall (hl hd hs : N -> bool) (autovars : list (text * autovar)) (switches : list (text * text)) (ee : bool) (fc : fontcfg) 
+    (cli_font : text) (cli_maxlen : Z) (optimize : bool) (mpath : option text) (src out : text),
+  Compile.compile hl hd hs autovars switches ee fc cli_font cli_maxlen optimize mpath src = Compile.OutText out ->
+  exists p : program,
+    parse_program autovars switches ee (parse_format fc cli_font cli_maxlen ee) (lex hl hd hs src) = Parser.Ok p /\
+    NoDup (map xname (texts p)) /\ NoDup (mov_names (tops p)) /\ Forall (script_clean (map xname (texts p))) (scripts_of (tops p)).
+Proof. exact NameClash.compiled_without_name_clash. Qed.
+Print Assumptions compiled_without_name_clash.
+
+Theorem compile_label_error_located :
+  forall (hl hd hs : N -> bool) (autovars : list (text * autovar)) (switches : list (text * text)) (ee : bool) (fc : fontcfg) 
+    (cli_font : text) (cli_maxlen : Z) (optimize : bool) (mpath : option text) (src : text) (p : program) (e : perr),
+  parse_program autovars switches ee (parse_format fc cli_font cli_maxlen ee) (lex hl hd hs src) = Parser.Ok p ->
+  Compile.compile hl hd hs autovars switches ee fc cli_font cli_maxlen optimize mpath src = Compile.OutErr e ->
+  exists (s : script) (w : wst) (lab : text) (tk : token),
+    In s (scripts_of (tops p)) /\
+    emit_graph (snd s) = Ok w /\
+    In (lab, tk) (dlts (snd s)) /\
+    (In lab (map (chunk_label (Datatypes.fst (Datatypes.fst s))) (finals w)) \/ In lab (map xname (texts p))) /\
+    els e = tline tk /\ ele e = teline tk /\ ecs e = tsb tk /\ eus e = tsu tk /\ ece e = teb tk /\ eue e = teu tk.
+Proof. exact NameClash.compile_label_error_located. Qed.
+Print Assumptions compile_label_error_located.
+
+Theorem compile_duplicate_text_located :
+  forall (hl hd hs : N -> bool) (autovars : list (text * autovar)) (switches : list (text * text)) (ee : bool) (fc : fontcfg) 
+    (cli_font : text) (cli_maxlen : Z) (optimize : bool) (mpath : option text) (src : text) (st : pstate) (x : textdef),
+  parse_tops autovars switches ee (parse_format fc cli_font cli_maxlen ee) (5 * length (lex hl hd hs src) + 4) pst0 (lex hl hd hs src) =
+  Parser.Ok st ->
+  dup_text [] (all_texts st) = Some x ->
+  Compile.compile hl hd hs autovars switches ee fc cli_font cli_maxlen optimize mpath src =
+  Compile.OutErr
+    {|
+      els := tline (xtok x);
+      ele := teline (xtok x);
+      ecs := tsb (xtok x);
+      eus := tsu (xtok x);
+      ece := teb (xtok x);
+      eue := teu (xtok x);
+      emsg :=
+        t
+          (String.String (Ascii.Ascii false false true false false true true false)
+             (String.String (Ascii.Ascii true false true false true true true false)
+                (String.String (Ascii.Ascii false false false false true true true false)
+                   (String.String (Ascii.Ascii false false true true false true true false)
+                      (String.String (Ascii.Ascii true false false true false true true false)
+                         (String.String (Ascii.Ascii true true false false false true true false)
+                            (String.String (Ascii.Ascii true false false false false true true false)
+                               (String.String (Ascii.Ascii false false true false true true true false)
+                                  (String.String (Ascii.Ascii true false true false false true true false)
+                                     (String.String (Ascii.Ascii false false false false false true false false)
+                                        (String.String (Ascii.Ascii false false true false true true true false)
+                                           (String.String (Ascii.Ascii true false true false false true true false)
+                                              (String.String (Ascii.Ascii false false false true true true true false)
+                                                 (String.String (Ascii.Ascii false false true false true true true false)
+                                                    (String.String (Ascii.Ascii false false false false false true false false)
+                                                       (String.String (Ascii.Ascii false false true true false true true false)
+                                                          (String.String (Ascii.Ascii true false false false false true true false)
+                                                             (String.String (Ascii.Ascii false true false false false true true false)
+                                                                (String.String (Ascii.Ascii true false true false false true true false)
+                                                                   (String.String (Ascii.Ascii false false true true false true true false)
+                                                                      String.EmptyString))))))))))))))))))))
+    |}.
+Proof. exact NameClash.compile_duplicate_text_located. Qed.
+Print Assumptions compile_duplicate_text_located.
+
+Theorem compile_duplicate_movement_located :
+  forall (hl hd hs : N -> bool) (autovars : list (text * autovar)) (switches : list (text * text)) (ee : bool) (fc : fontcfg) 
+    (cli_font : text) (cli_maxlen : Z) (optimize : bool) (mpath : option text) (src : text) (st : pstate) (tk : token),
+  parse_tops autovars switches ee (parse_format fc cli_font cli_maxlen ee) (5 * length (lex hl hd hs src) + 4) pst0 (lex hl hd hs src) =
+  Parser.Ok st ->
+  dup_text [] (all_texts st) = None ->
+  dup_mov [] (all_tops st) = Some tk ->
+  Compile.compile hl hd hs autovars switches ee fc cli_font cli_maxlen optimize mpath src =
+  Compile.OutErr
+    {|
+      els := tline tk;
+      ele := teline tk;
+      ecs := tsb tk;
+      eus := tsu tk;
+      ece := teb tk;
+      eue := teu tk;
+      emsg :=
+        t
+          (String.String (Ascii.Ascii false false true false false true true false)
+             (String.String (Ascii.Ascii true false true false true true true false)
+                (String.String (Ascii.Ascii false false false false true true true false)
+                   (String.String (Ascii.Ascii false false true true false true true false)
+                      (String.String (Ascii.Ascii true false false true false true true false)
+                         (String.String (Ascii.Ascii true true false false false true true false)
+                            (String.String (Ascii.Ascii true false false false false true true false)
+                               (String.String (Ascii.Ascii false false true false true true true false)
+                                  (String.String (Ascii.Ascii true false true false false true true false)
+                                     (String.String (Ascii.Ascii false false false false false true false false)
+                                        (String.String (Ascii.Ascii true false true true false true true false)
+                                           (String.String (Ascii.Ascii true true true true false true true false)
+                                              (String.String (Ascii.Ascii false true true false true true true false)
+                                                 (String.String (Ascii.Ascii true false true false false true true false)
+                                                    (String.String (Ascii.Ascii true false true true false true true false)
+                                                       (String.String (Ascii.Ascii true false true false false true true false)
+                                                          (String.String (Ascii.Ascii false true true true false true true false)
+                                                             (String.String (Ascii.Ascii false false true false true true true false)
+                                                                (String.String (Ascii.Ascii false false false false false true false false)
+                                                                   (String.String (Ascii.Ascii false false true true false true true false)
+                                                                      (String.String (Ascii.Ascii true false false false false true true false)
+                                                                         (String.String
+                                                                            (Ascii.Ascii false true false false false true true false)
+                                                                            (String.String
+                                                                               (Ascii.Ascii true false true false false true true false)
+                                                                               (String.String
+                                                                                  (Ascii.Ascii false false true true false true true false)
+                                                                                  String.EmptyString))))))))))))))))))))))))
+    |}.
+Proof. exact NameClash.compile_duplicate_movement_located. Qed.
+Print Assumptions compile_duplicate_movement_located.
+
